@@ -29,6 +29,11 @@ sorted list. -/
 def HasRank (cmp : α → α → Int) (l : List α) (k : Nat) (v : α) : Prop :=
   v ∈ l ∧ l.countP (fun x => cmp x v < 0) ≤ k ∧ k < l.countP (fun x => cmp x v ≤ 0)
 
+/-- The contract of `r.Intn(n-i)` in `Shuffle`: the `i`-th call returns a value in `[0, n-i)`.
+Nothing else is assumed about the random source. -/
+def IntnContract (choice : Nat → Int) (n : Nat) : Prop :=
+  ∀ i, i < n → 0 ≤ choice i ∧ choice i < (n : Int) - i
+
 /-- executable reference sort (stable) -/
 def refSort (cmp : α → α → Int) (l : List α) : List α := l.mergeSort (fun x y => decide (cmp x y ≤ 0))
 
